@@ -466,3 +466,18 @@ def deref_access_temps(func_node):
         R().visit(fn)
     ast.fix_missing_locations(fn)
     return fn
+
+
+def assign_pairs(st):
+    """(target, value) pairs of an assignment statement; a tuple assignment `a, b = x, y` of equal arity is read element-wise
+    (all values are evaluated before any store, so the pairs are simultaneous)"""
+    if not isinstance(st, ast.Assign):
+        return []
+    out = []
+    for t in st.targets:
+        if isinstance(t, (ast.Tuple, ast.List)) and isinstance(st.value, (ast.Tuple, ast.List)) and len(t.elts) == len(st.value.elts) \
+                and not any(isinstance(e, ast.Starred) for e in list(t.elts) + list(st.value.elts)):
+            out.extend(zip(t.elts, st.value.elts))
+        else:
+            out.append((t, st.value))
+    return out
